@@ -341,13 +341,11 @@ CHOICE_decode_ber(const asn_codec_ctx_t *opt_codec_ctx,
 					ctx->left++;
 					continue;
 				}
-			} else {
-				ASN_DEBUG("Unexpected continuation in %s",
-					td->name);
-				RETURN(RC_FAIL);
 			}
 
-			/* UNREACHABLE */
+			/* Neither <0><0> nor a starved buffer: not an end-of-contents */
+			ASN_DEBUG("Unexpected continuation in %s", td->name);
+			RETURN(RC_FAIL);
 		}
 
 		NEXT_PHASE(ctx);
